@@ -12,6 +12,8 @@
 #include <new>
 #include <set>
 #include <stdexcept>
+#include <memory>
+#include <thread>
 
 #include "support/common.h"
 #include "support/gen.h"
@@ -64,8 +66,8 @@ static std::string join(const std::vector<long long>& v) {
 }
 
 // ---- writers ------------------------------------------------------------------------------
-enum WK { W_BUF, W_PED, W_STREAM, W_FD, W_BOUNDED, W_CONSTEXPR, W_COUNT };
-static const char* wk_name[] = {"buf", "ped", "stream", "fd", "bounded", "constexpr"};
+enum WK { W_BUF, W_PED, W_STREAM, W_FD, W_BOUNDED, W_CONSTEXPR, W_PTR, W_UPTR, W_COUNT };
+static const char* wk_name[] = {"buf", "ped", "stream", "fd", "bounded", "constexpr", "buf-via-pointer", "buf-via-unique_ptr"};
 
 struct WResult {
   bool ok = false;
@@ -88,6 +90,34 @@ WResult write_buffer_like(const T& v, std::size_t cap, const std::vector<nop::St
   auto st = ser.Write(v);
   r.ok = static_cast<bool>(st); r.err = st.error();
   r.reported = ser.writer().size();
+  for (std::size_t i = cap; i < cap + kGuard; i++) if (buf[i] != 0xA5) r.guard_ok = false;
+  std::size_t n = r.reported <= cap ? r.reported : cap;
+  r.bytes.assign(buf.begin(), buf.begin() + n);
+  r.pushed = chan.pushed;
+  return r;
+}
+
+// the Serializer<Writer*> and Serializer<std::unique_ptr<Writer>> forms over a buffer writer
+template <typename T>
+WResult write_indirect(bool unique, const T& v, std::size_t cap, const std::vector<nop::Status<nop::HandleReference>>& script) {
+  WResult r;
+  std::vector<std::uint8_t> buf(cap + kGuard, 0xA5);
+  HandleOut chan; chan.script = script;
+  nop::Status<void> st;
+  if (unique) {
+    auto w = std::make_unique<HW<nop::BufferWriter>>(buf.data(), cap);
+    w->chan = &chan;
+    nop::Serializer<std::unique_ptr<HW<nop::BufferWriter>>> ser{std::move(w)};
+    st = ser.Write(v);
+    r.reported = ser.writer().size();
+  } else {
+    HW<nop::BufferWriter> w{buf.data(), cap};
+    w.chan = &chan;
+    nop::Serializer<HW<nop::BufferWriter>*> ser{&w};
+    st = ser.Write(v);
+    r.reported = w.size();
+  }
+  r.ok = static_cast<bool>(st); r.err = st.error();
   for (std::size_t i = cap; i < cap + kGuard; i++) if (buf[i] != 0xA5) r.guard_ok = false;
   std::size_t n = r.reported <= cap ? r.reported : cap;
   r.bytes.assign(buf.begin(), buf.begin() + n);
@@ -151,6 +181,7 @@ WResult write_fd(const T& v, const std::vector<nop::Status<nop::HandleReference>
 
 template <typename P, typename T>
 WResult write_kind(int wk, const T& v, std::size_t cap, const std::vector<nop::Status<nop::HandleReference>>& script) {
+  current_input() = std::string("write type=") + P::sexp + " writer=" + wk_name[wk] + " capacity=" + std::to_string(cap) + " (value: see the preceding operations of this type)";
   switch (wk) {
     case W_BUF: return write_buffer_like<nop::BufferWriter>(v, cap, script);
     case W_PED: return write_buffer_like<nop::PedanticBufferWriter>(v, cap, script);
@@ -159,6 +190,8 @@ WResult write_kind(int wk, const T& v, std::size_t cap, const std::vector<nop::S
       if constexpr (!P::has_table) return write_fd(v, script);
       break;
     case W_BOUNDED: return write_bounded(v, cap, cap, script);
+    case W_PTR: return write_indirect(false, v, cap, script);
+    case W_UPTR: return write_indirect(true, v, cap, script);
     case W_CONSTEXPR:
       if constexpr (P::constexpr_ok) return write_buffer_like<nop::ConstexprBufferWriter>(v, cap, script);
       break;
@@ -193,6 +226,7 @@ RResult read_kind(const std::string& rk, const std::vector<std::uint8_t>& bytes,
                   const std::vector<long long>& handles) {
   RResult r;
   HandleIn chan; chan.table = handles;
+  current_input() = std::string("read type=") + P::sexp + " reader=" + rk + " bytes=" + hex(bytes);
   try {
     if (rk == "buf") {
       Heap h(bytes);
@@ -230,6 +264,53 @@ RResult read_kind(const std::string& rk, const std::vector<std::uint8_t>& bytes,
         close(fd);
         finish(r, st, dest, pos);
       }
+    } else if (rk == "fdpipe") {
+      // an FdReader on a pipe whose writer delivers the bytes in small pieces
+      if constexpr (!P::has_table) {
+        int fds[2];
+        if (pipe(fds) != 0) std::abort();
+        std::uint64_t seed = bytes.size() * 2654435761u + 17;
+        std::thread feeder([&bytes, fds, seed]() mutable {
+          std::size_t at = 0;
+          while (at < bytes.size()) {
+            seed = seed * 6364136223846793005ULL + 1442695040888963407ULL;
+            std::size_t n = 1 + static_cast<std::size_t>((seed >> 33) % 7);
+            if (n > bytes.size() - at) n = bytes.size() - at;
+            ssize_t w = write(fds[1], bytes.data() + at, n);
+            if (w <= 0) break;
+            at += static_cast<std::size_t>(w);
+            if ((seed >> 20) % 3 == 0) std::this_thread::yield();
+          }
+          close(fds[1]);
+        });
+        nop::Status<void> st;
+        std::size_t left = 0;
+        {
+          nop::Deserializer<HR<nop::FdReader>> de{fds[0]};
+          de.reader().chan = &chan;
+          st = de.Read(&dest);
+          // what the reader did not consume is still in the pipe
+          std::uint8_t tmp[256];
+          feeder.join();
+          for (;;) { ssize_t n = read(fds[0], tmp, sizeof(tmp)); if (n <= 0) break; left += static_cast<std::size_t>(n); }
+        }
+        finish(r, st, dest, bytes.size() - left);
+      }
+    } else if (rk == "ptr" || rk == "uptr") {
+      Heap h(bytes);
+      if (rk == "ptr") {
+        HR<nop::BufferReader> inner{h.p, h.n};
+        inner.chan = &chan;
+        nop::Deserializer<HR<nop::BufferReader>*> de{&inner};
+        auto st = de.Read(&dest);
+        finish(r, st, dest, h.n - inner.remaining());
+      } else {
+        auto inner = std::make_unique<HR<nop::BufferReader>>(h.p, h.n);
+        inner->chan = &chan;
+        nop::Deserializer<std::unique_ptr<HR<nop::BufferReader>>> de{std::move(inner)};
+        auto st = de.Read(&dest);
+        finish(r, st, dest, h.n - de.reader().remaining());
+      }
     } else if (rk.rfind("b:", 0) == 0) {
       std::size_t limit = std::strtoull(rk.c_str() + 2, nullptr, 10);
       Heap h(bytes);
@@ -260,8 +341,8 @@ struct TypeRunner {
   explicit TypeRunner(Ctx& ctx) : c(ctx), rng(ctx.seed * 1000003ULL + static_cast<std::uint64_t>(I) * 7919ULL) {}
 
   std::vector<std::string> readers(std::size_t len, bool fd_ok = true) {
-    std::vector<std::string> rs = {"buf", "ped", "stream"};
-    if (!P::has_table && fd_ok && len <= 4096) rs.push_back("fd");
+    std::vector<std::string> rs = {"buf", "ped", "stream", "ptr", "uptr"};
+    if (!P::has_table && fd_ok && len <= 4096) { rs.push_back("fd"); if (len <= 600) rs.push_back("fdpipe"); }
     rs.push_back("b:" + std::to_string(len) + ":buf");
     return rs;
   }
@@ -542,7 +623,7 @@ struct TypeRunner {
       for (std::size_t k = size - 24; k <= size + 1; k++) caps.push_back(k);
       for (int j = 0; j < 16; j++) caps.push_back(24 + rng.below(size - 48));
     }
-    const int kinds[] = {W_BUF, W_PED, W_CONSTEXPR, W_BOUNDED};
+    const int kinds[] = {W_BUF, W_PED, W_CONSTEXPR, W_BOUNDED, W_PTR, W_UPTR};
     for (std::size_t cap : caps) {
       for (int wk : kinds) {
         if (!writer_supported<P>(wk)) continue;
@@ -793,6 +874,7 @@ void run_from(Ctx& c, int only) {
 
 #ifndef NOPV_NO_MAIN
 int main(int argc, char** argv) {
+  install_death_hooks();
   Ctx c;
   int only = -1;
   for (int i = 1; i < argc; i++) {
